@@ -30,13 +30,15 @@ def configs(tier):
     for n in (2, 3):
         cfgs.append((dict(n=n, use_backups=True, batch_size=None, n_fast=0, simul=True, max_ticks=2), 3 if tier == "quick" else 99))
     # backups engage: n_fast prompt inputs + f free stragglers
-    free = (2,) if tier == "quick" else (2, 3)
+    free = (2,) if tier == "quick" else (2, 3, 4)
     for f in free:
-        for nf in (9, 10):
+        for nf in ((9, 10) if f < 4 else (9,)):
             n = nf + f
-            for bs in (None, n + 5):
+            for bs in ((None, n + 5) if f < 4 else (None,)):
                 for pre in (0, 2):
-                    dev = {("quick", 2): 4, ("thorough", 2): 99, ("thorough", 3): 4}[(tier, f)]
+                    # thorough: 2 and 3 free stragglers are enumerated completely (no deviation bound) once backups are
+                    # launched; 4 free stragglers with <= 4 deviations
+                    dev = {("quick", 2): 4, ("thorough", 2): 99, ("thorough", 3): 99, ("thorough", 4): 4}[(tier, f)]
                     if pre == 0:
                         dev = min(dev, 5 if tier == "quick" else 6)
                     cfgs.append((dict(n=n, use_backups=True, batch_size=bs, n_fast=nf, pre_ticks=pre,
@@ -232,7 +234,7 @@ def run(ctx):
     tier = ctx.tier
     # A. scheduler exploration
     cfgs = configs(tier)
-    limit = 400000 if tier == "quick" else 3000000
+    limit = 400000 if tier == "quick" else 6000000
     items = perm([(c, d, limit) for c, d in cfgs], ctx.seed)
     res = ctx.pmap(explore_cfg, items)
     execs = states = trans = 0
